@@ -236,7 +236,7 @@ class NetSim:
     def transmit(self, station: Station, frame: bytes, injected: bool = False, to=None) -> int:
         k = self.kernel
         txi = len(self.hist.tx)
-        rec = {"i": txi, "t": k.now_us, "st": station.idx, "frame": frame, "cause": k.current_cause,
+        rec = {"i": txi, "t": k.now_us, "ev": k.events_run, "st": station.idx, "frame": frame, "cause": k.current_cause,
                "gen": station.gen, "injected": injected, "n": station.tx_count}
         self.hist.tx.append(rec)
         k.record("tx", station.idx, frame)
@@ -278,7 +278,7 @@ class NetSim:
         st = self.stations[r]
         rxi = len(self.hist.rx)
         k.current_cause = ("rx", rxi)
-        rec = {"i": rxi, "t": k.now_us, "st": r, "frame": frame, "tx": txi, "fault": fault, "exc": None,
+        rec = {"i": rxi, "t": k.now_us, "ev": k.events_run, "st": r, "frame": frame, "tx": txi, "fault": fault, "exc": None,
                "gen": st.gen}
         self.hist.rx.append(rec)
         k.record("rx", r, frame, fault)
